@@ -78,6 +78,7 @@ type output struct {
 	unsupported []string
 	rootsOps    map[string][]string
 	funcPos     map[string]string
+	calls       map[string]map[string]bool
 }
 
 func short(pkgPath string) string {
@@ -161,6 +162,14 @@ func (t *tr) wr(n ast.Node, field string, out *[]string) {
 	f, l := t.pos(n)
 	t.out.accesses = append(t.out.accesses, access{Fn: t.fn, File: f, Line: l, Kind: "W", Field: field})
 	*out = append(*out, actp(fmt.Sprintf("Wr %q", field)))
+}
+func (t *tr) called(callee string) {
+	m := t.out.calls[t.fn]
+	if m == nil {
+		m = map[string]bool{}
+		t.out.calls[t.fn] = m
+	}
+	m[callee] = true
 }
 func (t *tr) unsupported(n ast.Node, what string) {
 	f, l := t.pos(n)
@@ -438,6 +447,7 @@ func (t *tr) call(c *ast.CallExpr, out *[]string) {
 					}
 					if ok {
 						calleeName = owner + "." + f.Sel.Name
+						t.called(calleeName)
 						*out = append(*out, "(PCall \""+calleeName+"\")")
 						if owner == "eventlogger.graphMap" {
 							t.rootsOp(c, f.X, f.Sel.Name)
@@ -472,6 +482,7 @@ func (t *tr) call(c *ast.CallExpr, out *[]string) {
 				case short(pn.Imported().Path()) != "":
 					if _, isFunc := t.info.Uses[f.Sel].(*types.Func); isFunc {
 						calleeName = short(pn.Imported().Path()) + "." + f.Sel.Name
+						t.called(calleeName)
 						*out = append(*out, "(PCall \""+calleeName+"\")")
 					} else {
 						*out = append(*out, actp(`User "funcval"`)) // package-level func variable
@@ -486,6 +497,7 @@ func (t *tr) call(c *ast.CallExpr, out *[]string) {
 		case *types.Func:
 			if obj.Pkg() != nil && short(obj.Pkg().Path()) != "" {
 				calleeName = short(obj.Pkg().Path()) + "." + f.Name
+				t.called(calleeName)
 				*out = append(*out, "(PCall \""+calleeName+"\")")
 			} else {
 				external = true
@@ -810,7 +822,7 @@ func main() {
 		fmt.Fprintln(os.Stderr, "translate: load:", err)
 		os.Exit(2)
 	}
-	out := &output{litCallees: map[string]bool{}, rootsOps: map[string][]string{}, funcPos: map[string]string{}}
+	out := &output{litCallees: map[string]bool{}, rootsOps: map[string][]string{}, funcPos: map[string]string{}, calls: map[string]map[string]bool{}}
 	var pkgNames []string
 	sort.Slice(pkgs, func(i, j int) bool { return pkgs[i].PkgPath < pkgs[j].PkgPath })
 	for _, p := range pkgs {
@@ -883,7 +895,15 @@ func main() {
 		fmt.Fprintln(os.Stderr, err)
 		os.Exit(2)
 	}
+	calls := map[string][]string{}
+	for f, m := range out.calls {
+		for c := range m {
+			calls[f] = append(calls[f], c)
+		}
+		sort.Strings(calls[f])
+	}
 	side := map[string]interface{}{
+		"calls": calls,
 		"packages": pkgNames, "functions": len(out.entries), "entries": out.entryPoints, "accesses": out.accesses,
 		"lit_callees": lc, "unsupported": out.unsupported, "roots_ops": out.rootsOps, "func_pos": out.funcPos,
 	}
